@@ -124,7 +124,10 @@ impl<V: Debug + Clone> TrieNode<V> {
         let before = self.count_values();
 
         let insert_result = self.insert_recursive(&key, &key, value);
-        assert_ne!(insert_result, InsertResult::Failed);
+        if insert_result == InsertResult::Failed {
+            // not a storable key (e.g. `x/b/`, `a/`): report it, the caller refuses the frontend
+            return InsertResult::Failed;
+        }
 
         // Post: the value count grows by exactly one on a fresh insert
         // and is unchanged when the key already existed. `Failed` is
